@@ -18,10 +18,6 @@ source on disk is never touched; node positions are kept, so reports still point
      (``kw_to_pos``, needs the other modules' signatures and is therefore run by the loader after indexing);
   4. local closures used as plain helpers (``def reg(a, b): ...`` at the top of a function body, only ever called,
      after its definition, from the function's own scope) are inlined like private helpers (``Inliner._local_helpers``);
-  4b. a private helper that reads its ``**kw`` as a mapping (``d.update(kw)``) is inlined at calls that spell the extra
-     keywords out (no ``**m``): the mapping becomes the local ``kw = {'k': v, ..}`` (``Inliner._bind``); a private generator
-     that is one ``for`` loop ending in its only ``yield`` is fused with the ``for`` loop that consumes it
-     (``Inliner._expand_gen_loop``: ``for t in self._g(a): BODY`` -> ``for x in IT: PRE; t = v; BODY``);
   5. loops over a short literal tuple / list of *variables* (``for src in (self.resources, overrides): d.update(src)``)
      are unrolled (``Unroll``); loops over constants (slot-name tables) keep their shape.
 
@@ -386,6 +382,21 @@ def _simple_arg(e):
     return False
 
 
+def _timeless_default(e):
+    """A default-argument expression that denotes the same object whether it is evaluated once (when the ``def`` runs) or
+    at every call: constants, names / dotted names (references to existing objects), signed numbers, tuples of such, and
+    lambdas (stateless).  Calls, displays of mutable containers, comprehensions, subscripts, operators are not."""
+    if isinstance(e, (ast.Constant, ast.Name, ast.Lambda)):
+        return True
+    if isinstance(e, ast.Attribute):
+        return _simple_arg(e)
+    if isinstance(e, ast.UnaryOp) and isinstance(e.op, (ast.USub, ast.UAdd, ast.Not)):
+        return isinstance(e.operand, ast.Constant)
+    if isinstance(e, ast.Tuple):
+        return all(_timeless_default(x) for x in e.elts)
+    return False
+
+
 def _stored_names(stmts):
     out = set()
     for s in stmts:
@@ -428,10 +439,19 @@ class Helper(object):
         return self.node.name
 
 
-def _eligible_def(fn):
+def _kw_consumed(fn):
+    """The function reads its ``**kw`` parameter other than to pass it on as ``g(.., **kw)``."""
+    if fn.args.kwarg is None:
+        return False
+    kw = fn.args.kwarg.arg
+    passed = set(id(k.value) for n in ast.walk(fn) if isinstance(n, ast.Call) for k in n.keywords if k.arg is None and isinstance(k.value, ast.Name))
+    return any(isinstance(n, ast.Name) and n.id == kw and id(n) not in passed for n in ast.walk(fn))
+
+
+def _eligible_def(fn, any_name=False):
     if not isinstance(fn, ast.FunctionDef):
         return None
-    if not fn.name.startswith('_') or (fn.name.startswith('__') and fn.name.endswith('__')):
+    if (not fn.name.startswith('_') and not any_name) or (fn.name.startswith('__') and fn.name.endswith('__')):
         return None
     a = fn.args
     if a.vararg:
@@ -439,10 +459,16 @@ def _eligible_def(fn):
     if a.kwarg is not None:
         # ``**kw`` is acceptable when the helper only passes it on (``g(.., **kw)``): the caller's mapping can then stand
         # for the copy the call would make -- nothing in the helper can tell the difference
-        # (a helper that uses its ``**kw`` in any other way -- ``d.update(kw)`` -- is followed only from calls that spell the
-        # extra keywords out: the mapping it receives is then the fresh dict ``{'k': v, ..}``, see Inliner._bind)
         kw = a.kwarg.arg
+        passed = set(id(k.value) for n in ast.walk(fn) if isinstance(n, ast.Call) for k in n.keywords if k.arg is None and isinstance(k.value, ast.Name))
+        fn._vt_kw_consumed = False
         for n in ast.walk(fn):
+            if isinstance(n, ast.Name) and n.id == kw and id(n) not in passed:
+                # the helper looks into / hands on / changes the mapping itself: it then gets its own fresh dict
+                # (exactly what a call builds), see Inliner._bind -- unless it re-binds the name
+                if not isinstance(n.ctx, ast.Load):
+                    return None
+                fn._vt_kw_consumed = True
             if isinstance(n, ast.arg) and n.arg == kw and n is not a.kwarg:
                 return None
     kind = 'func'
@@ -467,15 +493,6 @@ def _eligible_def(fn):
     if sum(1 for n in ast.walk(fn) if isinstance(n, ast.stmt)) > 60:
         return None
     return kind
-
-
-def _kw_general(fn):
-    """The function reads its ``**kw`` parameter other than to pass it on as ``g(.., **kw)``."""
-    if fn.args.kwarg is None:
-        return False
-    kw = fn.args.kwarg.arg
-    passed = set(id(k.value) for n in ast.walk(fn) if isinstance(n, ast.Call) for k in n.keywords if k.arg is None and isinstance(k.value, ast.Name))
-    return any(isinstance(n, ast.Name) and n.id == kw and id(n) not in passed for n in ast.walk(fn))
 
 
 def collect_helpers(tree, anchors):
@@ -509,6 +526,40 @@ def collect_helpers(tree, anchors):
         mod_helpers.pop(r, None)
     return mod_helpers, cls_helpers
 
+
+def collect_named_class_helpers(tree, anchors):
+    """Static / class methods of a *private* module-level class, whatever their own name (``_Options.from_kwargs``):
+    (class name, method name) -> Helper.  A call that names the class explicitly -- ``_Options.from_kwargs(kw)`` -- runs
+    exactly that function with ``cls`` = the class when the class name is bound once in the module (the ``class``
+    statement), the class has no metaclass, and its body binds the method name once (the ``def``)."""
+    out = {}
+    bound = {}
+    for n in ast.walk(tree):
+        if isinstance(n, ast.Name) and isinstance(n.ctx, (ast.Store, ast.Del)):
+            bound[n.id] = bound.get(n.id, 0) + 1
+        elif isinstance(n, (ast.FunctionDef, ast.AsyncFunctionDef, ast.ClassDef)):
+            bound[n.name] = bound.get(n.name, 0) + 1
+        elif isinstance(n, (ast.Global, ast.Nonlocal)):
+            for x in n.names:
+                bound[x] = bound.get(x, 0) + 2
+        elif isinstance(n, ast.alias):
+            nm = (n.asname or n.name).split('.')[0]
+            bound[nm] = bound.get(nm, 0) + 1
+    for st in tree.body:
+        if not isinstance(st, ast.ClassDef) or not st.name.startswith('_') or st.name.startswith('__') or st.name in anchors:
+            continue
+        if st.keywords or st.decorator_list or bound.get(st.name) != 1:
+            continue
+        in_body = {}
+        for m in st.body:
+            for nm in ([m.name] if isinstance(m, (ast.FunctionDef, ast.AsyncFunctionDef, ast.ClassDef)) else _stored_names([m])):
+                in_body[nm] = in_body.get(nm, 0) + 1
+        for m in st.body:
+            if isinstance(m, ast.FunctionDef) and m.name not in anchors and not m.name.startswith('_') and in_body.get(m.name) == 1:
+                kind = _eligible_def(m, any_name=True)
+                if kind in ('static', 'class'):
+                    out[(st.name, m.name)] = Helper(m, kind, st.name)
+    return out
 
 
 # ---------------------------------------------------------------------------------------------- context managers
@@ -606,50 +657,49 @@ def collect_context_managers(tree, anchors):
     return mod, cls
 
 
-# ---------------------------------------------------------------------------------------------- generators that are a loop head
-_LOOP_BODY = '__vt_loop_body__'
+# ---------------------------------------------------------------------------------------------- generators driving a for loop
+_YIELD_HERE = '__vt_yield_here__'
 
 
-def _loop_gen_shape(fn):
-    """A generator whose body is one ``for`` loop (no ``else``) whose last top-level statement is the function's only
-    ``yield`` (a statement: nothing is sent in), with no ``return`` and no ``break`` out of that loop: -> the loop."""
+def _eligible_gen(fn, anchors):
+    """A private, non-anchor generator whose body is straight-line statements followed by ONE loop whose last top-level
+    statement is the generator's only ``yield`` (an expression statement): -> (kind, fake definition with the yield replaced
+    by a placeholder).  ``for T in gen(..): BODY`` is then the generator's loop with ``T = <value>; BODY`` where the yield
+    stood (see Inliner._expand_for)."""
+    if not isinstance(fn, ast.FunctionDef) or fn.name in anchors or not fn.name.startswith('_') or fn.name.startswith('__'):
+        return None
+    ys = [n for n in ast.walk(fn) if isinstance(n, (ast.Yield, ast.YieldFrom))]
+    if len(ys) != 1 or not isinstance(ys[0], ast.Yield):
+        return None
     body = list(fn.body)
     if body and isinstance(body[0], ast.Expr) and isinstance(body[0].value, ast.Constant) and isinstance(body[0].value.value, str):
         body = body[1:]
-    if len(body) != 1 or not isinstance(body[0], ast.For) or body[0].orelse or not body[0].body:
+    if body and isinstance(body[-1], ast.Return) and body[-1].value is None:
+        body = body[:-1]
+    if not body or not isinstance(body[-1], (ast.For, ast.While)) or body[-1].orelse or _contains_return(body):
         return None
-    loop = body[0]
-    ys = [n for n in ast.walk(fn) if isinstance(n, (ast.Yield, ast.YieldFrom))]
+    loop = body[-1]
     last = loop.body[-1]
-    if len(ys) != 1 or not isinstance(ys[0], ast.Yield) or not (isinstance(last, ast.Expr) and last.value is ys[0]):
-        return None
-    if _contains_return(fn.body) or Unroll._loop_jumps_of(loop.body, (ast.Break,)):
-        return None
-    return loop
-
-
-def _eligible_loop_gen(fn, anchors):
-    if not isinstance(fn, ast.FunctionDef) or fn.name in anchors or not fn.name.startswith('_') or fn.name.startswith('__'):
-        return None
-    if any(not (isinstance(d, ast.Name) and d.id == 'staticmethod') for d in fn.decorator_list):
-        return None
-    if _loop_gen_shape(fn) is None:
+    if not (isinstance(last, ast.Expr) and last.value is ys[0]):
         return None
     fake = copy.deepcopy(fn)
-    loop = _loop_gen_shape(fake)
-    y = loop.body[-1]
-    v = y.value.value
-    loop.body[-1] = ast.copy_location(ast.Expr(value=ast.Tuple(elts=[ast.Name(id=_LOOP_BODY, ctx=ast.Load())] + ([v] if v is not None else []),
-                                                                ctx=ast.Load())), y)
+    fake.decorator_list = [d for d in fake.decorator_list if isinstance(d, ast.Name) and d.id == 'staticmethod']
+    if len(fake.decorator_list) != len(fn.decorator_list):
+        return None
+    if isinstance(fake.body[-1], ast.Return):
+        fake.body = fake.body[:-1]
+    floop = fake.body[-1]
+    v = floop.body[-1].value.value
+    floop.body[-1] = ast.copy_location(ast.Expr(value=ast.Tuple(elts=[ast.Name(id=_YIELD_HERE, ctx=ast.Load())] +
+                                                                ([v] if v is not None else []), ctx=ast.Load())), floop.body[-1])
     kind = _eligible_def(fake)
-    if kind is None or _kw_general(fake):
+    if kind is None:
         return None
     return kind, fake
 
 
-def collect_loop_generators(tree, anchors):
-    mod, cls = {}, {}
-    counts = {}
+def collect_generators(tree, anchors):
+    mod, cls, counts = {}, {}, {}
     for st in tree.body:
         if isinstance(st, ast.ClassDef):
             for m in st.body:
@@ -657,14 +707,14 @@ def collect_loop_generators(tree, anchors):
                     counts[m.name] = counts.get(m.name, 0) + 1
     for st in tree.body:
         if isinstance(st, ast.FunctionDef):
-            r = _eligible_loop_gen(st, anchors)
+            r = _eligible_gen(st, anchors)
             if r is not None and r[0] == 'func':
                 h = Helper(r[1], 'func')
                 h.orig = st
                 mod[st.name] = h
         elif isinstance(st, ast.ClassDef):
             for m in st.body:
-                r = _eligible_loop_gen(m, anchors) if isinstance(m, ast.FunctionDef) else None
+                r = _eligible_gen(m, anchors) if isinstance(m, ast.FunctionDef) else None
                 if r is not None and counts.get(m.name) == 1:
                     h = Helper(r[1], 'method' if r[0] == 'func' else r[0], st.name)
                     h.orig = m
@@ -785,10 +835,11 @@ class Inliner(object):
     def __init__(self, tree, anchors, foreign=None):
         self.tree = tree
         self.mod_helpers, self.cls_helpers = collect_helpers(tree, anchors)
+        self.named_cls_helpers = collect_named_class_helpers(tree, anchors)
         # foreign(name) -> True when another module of the analysed tree mentions ``name`` (None: unknown, assume it does)
         self.foreign = foreign
         self.cm_mod, self.cm_cls = collect_context_managers(tree, anchors)
-        self.gen_mod, self.gen_cls = collect_loop_generators(tree, anchors)
+        self.gen_mod, self.gen_cls = collect_generators(tree, anchors)
         self.obj_classes = collect_object_classes(tree, anchors) if foreign is not None else {}
         self.used = set()           # ids of helper definitions expanded at least once
         self.shared_names = set()   # locals standing for the fields of a dissolved object: never renamed
@@ -888,8 +939,7 @@ class Inliner(object):
             # f(a, **kw) is followed only into a helper that itself declares ``**kw`` as a pure pass-through (see
             # _eligible_def) and when the mapping is a plain name
             h, recv = self._helper_of_plain(call, cls_name)
-            if h is None or h.node.args.kwarg is None or len(stars) != 1 or not isinstance(stars[0].value, ast.Name) or \
-                    _kw_general(h.node):
+            if h is None or h.node.args.kwarg is None or len(stars) != 1 or not isinstance(stars[0].value, ast.Name):
                 return None, None
             return h, recv
         return self._helper_of_plain(call, cls_name)
@@ -908,6 +958,8 @@ class Inliner(object):
                     return h, f.value
             if (recv, f.attr) in self.cls_helpers and self.cls_helpers[(recv, f.attr)].kind in ('static', 'class'):
                 return self.cls_helpers[(recv, f.attr)], f.value
+            if (recv, f.attr) in self.named_cls_helpers and recv not in self.shadowed:
+                return self.named_cls_helpers[(recv, f.attr)], f.value
         return None, None
 
     # -- expansion ---------------------------------------------------------------------------------------
@@ -949,19 +1001,16 @@ class Inliner(object):
                     continue
                 raise CannotInline('bad keyword %s' % k.arg)
             binding[k.arg] = k.value
-        kw_general = kwparam is not None and _kw_general(fn)
-        if kw_general:
-            # the helper reads its ``**kw`` as a mapping: the call spells every extra keyword out (no ``**m``, see _helper_of),
-            # so that mapping is the fresh dict of exactly these items, in the order written -- bound to a local of its own below
-            if kwparam in binding:
-                raise CannotInline('** argument for a ** parameter that is read as a mapping')
-            binding[kwparam] = ast.Dict(keys=[ast.Constant(value=e.arg) for e in extra_kws], values=[copy.deepcopy(e.value) for e in extra_kws])
         if kwparam is not None and kwparam not in binding:
             binding[kwparam] = ast.Dict(keys=[], values=[])      # no extra keywords given: ``**{}``
         for p in params + kwonly:
             if p not in binding:
                 if p not in defaults:
                     raise CannotInline('unbound parameter %s' % p)
+                if not _timeless_default(defaults[p]):
+                    # ``def f(key=os.urandom(20))`` / ``def f(acc=[])``: the default is ONE value, computed when the function
+                    # is defined; writing the expression at the call site would compute a new one per call
+                    raise CannotInline('default of %s is evaluated once, at definition time' % p)
                 binding[p] = defaults[p]
         body = [s for s in fn.body]
         if body and isinstance(body[0], ast.Expr) and isinstance(body[0].value, ast.Constant) and isinstance(body[0].value.value, str):
@@ -995,7 +1044,26 @@ class Inliner(object):
                 rename[n] = new
                 taken.add(new)
         mapping, pre = {}, []
-        if kwparam is not None and not kw_general:
+        kw_consumed = kwparam is not None and _kw_consumed(fn)      # (decided on the definition at hand: closures and
+        #                                                              synthesised methods are copies that _eligible_def never saw)
+        if kw_consumed:
+            # the helper uses its ``**kw`` as a mapping: bind it to the fresh dict the call would build
+            real = binding[kwparam]
+            if isinstance(real, ast.Dict) and not real.keys:
+                val = ast.Dict(keys=[ast.Constant(value=e.arg) for e in extra_kws], values=[copy.deepcopy(e.value) for e in extra_kws])
+            else:
+                val = ast.Call(func=ast.Name(id='dict', ctx=ast.Load()), args=[copy.deepcopy(real)],
+                               keywords=[ast.keyword(arg=e.arg, value=copy.deepcopy(e.value)) for e in extra_kws])
+                if 'dict' in caller_names:
+                    raise CannotInline('dict is shadowed')
+            tgt = kwparam
+            while tgt in taken or (tgt != kwparam and tgt in stored):
+                tgt += '_'
+            taken.add(tgt)
+            rename[kwparam] = tgt
+            pre.append(ast.copy_location(ast.Assign(targets=[ast.Name(id=tgt, ctx=ast.Store())], value=val), call))
+            extra_kws = []
+        elif kwparam is not None:
             mapping[kwparam] = ast.Name(id=_KW_PASS, ctx=ast.Load())      # only ever read as ``**kw``: see below
         for p in params + kwonly:
             v = binding[p]
@@ -1011,18 +1079,9 @@ class Inliner(object):
                 pre.append(ast.copy_location(ast.Assign(targets=[ast.Name(id=tgt, ctx=ast.Store())], value=copy.deepcopy(v)), call))
             else:
                 mapping[p] = v
-        if kw_general:
-            tgt = kwparam
-            if tgt in taken:
-                tgt = kwparam + '_'
-                while tgt in taken or tgt in stored:
-                    tgt += '_'
-            taken.add(tgt)
-            rename[kwparam] = tgt
-            pre.append(ast.copy_location(ast.Assign(targets=[ast.Name(id=tgt, ctx=ast.Store())], value=binding[kwparam]), call))
         sub = _Subst(mapping, rename)
         body = [sub.visit(s) for s in body]
-        if kwparam is not None and not kw_general:
+        if kwparam is not None and not kw_consumed:
             # ``g(.., **kw)`` in the helper: the caller's explicit extra keywords, then the caller's own ``**mapping``
             real = binding[kwparam]
             empty = isinstance(real, ast.Dict) and not real.keys
@@ -1141,19 +1200,16 @@ class Inliner(object):
         self.used.add(id(h.orig))
         return pre + body
 
-    # -- ``for t in gen(..): BODY`` for a generator of this module that is one loop ending in its yield -----------
-    def _expand_gen_loop(self, s, cls_name, caller_names):
-        """``for t in self._g(a): BODY`` where ``_g`` is ``for x in IT: PRE; yield v`` (see _loop_gen_shape) is the loop
-        ``for x in IT: PRE; t = v; BODY``: the consumer asks for the next item exactly when BODY has finished (or continued),
-        which is when the generator resumes behind its yield -- the end of its loop body -- and takes the next ``x``; a
-        ``continue`` in PRE skips to the next ``x`` in both; ``break`` / ``return`` / an exception in BODY abandon the suspended
-        generator, which has no ``try`` around the yield and hence nothing left to run; the loops end together (``else``).
-        The arguments are evaluated where the call stood; what the generator reads of the caller by reference must not be
-        re-bound by BODY (the generator would keep the old object)."""
+    # -- ``for T in gen(..): BODY`` for a one-loop generator of this module ----------------------------------
+    def _expand_for(self, s, cls_name, caller_names):
+        """The generator runs its prefix when the loop starts, then one iteration of its own loop per item, suspended at the
+        yield while BODY runs; the yield is the last statement of that loop, so ``continue`` in BODY (next item) is
+        ``continue`` of the generator's loop, and ``break`` / ``return`` in BODY (the generator is closed; nothing follows
+        its loop) leave it the same way."""
         call = s.iter
-        if not isinstance(call, ast.Call) or any(isinstance(a, ast.Starred) for a in call.args) or any(k.arg is None for k in call.keywords):
-            return None
         f = call.func
+        if s.orelse or any(isinstance(a, ast.Starred) for a in call.args) or any(k.arg is None for k in call.keywords):
+            return None
         h, recv = None, None
         if isinstance(f, ast.Name) and f.id in self.gen_mod and f.id not in self.shadowed:
             h = self.gen_mod[f.id]
@@ -1162,39 +1218,35 @@ class Inliner(object):
             recv = f.value
         if h is None:
             return None
+        # BODY runs between the generator's iterations: what the generator received by reference (plain names / attribute
+        # chains are substituted, not copied into a parameter of its own) must not be re-bound by BODY -- the generator
+        # would go on with the object it was called with
         body_stored = _stored_names(s.body) | set(n.id for n in ast.walk(s.target) if isinstance(n, ast.Name))
         attr_stored = set(n.attr for st in s.body for n in ast.walk(st) if isinstance(n, ast.Attribute) and isinstance(n.ctx, (ast.Store, ast.Del)))
         for a in list(call.args) + [k.value for k in call.keywords] + ([recv] if recv is not None else []):
-            if isinstance(a, ast.Constant):
-                continue
             for n in ast.walk(a):
                 if isinstance(n, ast.Name) and n.id in body_stored:
                     raise CannotInline('the loop body re-binds %s, which the generator received' % n.id)
                 if isinstance(n, ast.Attribute) and n.attr in attr_stored:
                     raise CannotInline('the loop body stores an attribute the generator received (.%s)' % n.attr)
         pre, body = self._bind(h, call, recv, caller_names, None)
-        if len(body) != 1 or not isinstance(body[0], ast.For):
-            raise CannotInline('generator shape lost')
-        loop = body[0]
-        mark = loop.body[-1]
-        if not (isinstance(mark, ast.Expr) and isinstance(mark.value, ast.Tuple) and mark.value.elts and
-                isinstance(mark.value.elts[0], ast.Name) and mark.value.elts[0].id == _LOOP_BODY):
+        loop = body[-1]
+        ph = loop.body[-1]
+        if not (isinstance(ph, ast.Expr) and isinstance(ph.value, ast.Tuple) and ph.value.elts and
+                isinstance(ph.value.elts[0], ast.Name) and ph.value.elts[0].id == _YIELD_HERE):
             raise CannotInline('yield position lost')
-        v = mark.value.elts[1] if len(mark.value.elts) > 1 else ast.copy_location(ast.Constant(value=None), s)
-        target = s.target
-        assigns = None
-        if isinstance(target, ast.Tuple) and isinstance(v, ast.Tuple) and len(target.elts) == len(v.elts) and \
-                not any(isinstance(e, ast.Starred) for e in target.elts + v.elts):
-            tnames = set(n.id for e in target.elts for n in ast.walk(e) if isinstance(n, ast.Name))
-            vnames = set(n.id for e in v.elts for n in ast.walk(e) if isinstance(n, ast.Name))
-            if not (tnames & vnames):
-                assigns = [ast.copy_location(ast.Assign(targets=[t], value=e), s) for t, e in zip(target.elts, v.elts)]
-        if assigns is None:
-            assigns = [ast.copy_location(ast.Assign(targets=[target], value=v), s)]
-        new = ast.copy_location(ast.For(target=loop.target, iter=loop.iter, body=loop.body[:-1] + assigns + list(s.body),
-                                        orelse=list(s.orelse), type_comment=None), s)
+        v = ph.value.elts[1] if len(ph.value.elts) > 1 else ast.copy_location(ast.Constant(value=None), ph)
+        tgt = s.target
+        if isinstance(tgt, ast.Tuple) and isinstance(v, ast.Tuple) and len(tgt.elts) == len(v.elts) and \
+                not any(isinstance(e, ast.Starred) for e in tgt.elts + v.elts) and \
+                not (set(n.id for e in tgt.elts for n in ast.walk(e) if isinstance(n, ast.Name)) &
+                     set(n.id for e in v.elts for n in ast.walk(e) if isinstance(n, ast.Name))):
+            assigns = [ast.copy_location(ast.Assign(targets=[t], value=e), s) for t, e in zip(tgt.elts, v.elts)]
+        else:
+            assigns = [ast.copy_location(ast.Assign(targets=[tgt], value=v), s)]
+        loop.body = loop.body[:-1] + assigns + list(s.body)
         self.used.add(id(h.orig))
-        return pre + [new]
+        return pre + body
 
     # -- objects of private record classes that never leave the function creating them --------------------
     def _dissolve_objects(self, fn):
@@ -1366,8 +1418,8 @@ class Inliner(object):
                 rep = self._expand_with(s, cls_name, caller_names)
                 if rep is not None:
                     return rep
-            if isinstance(s, ast.For):
-                rep = self._expand_gen_loop(s, cls_name, caller_names)
+            if isinstance(s, ast.For) and isinstance(s.iter, ast.Call):
+                rep = self._expand_for(s, cls_name, caller_names)
                 if rep is not None:
                     return rep
             if isinstance(s, ast.Return) and isinstance(s.value, ast.Call):
@@ -1625,14 +1677,10 @@ class Unroll(ast.NodeTransformer):
 
     @staticmethod
     def _loop_jumps(body):
-        return Unroll._loop_jumps_of(body, (ast.Break, ast.Continue))
-
-    @staticmethod
-    def _loop_jumps_of(body, kinds):
         todo = list(body)
         while todo:
             n = todo.pop()
-            if isinstance(n, kinds):
+            if isinstance(n, (ast.Break, ast.Continue)):
                 return True
             if isinstance(n, (ast.For, ast.While, ast.AsyncFor)):
                 todo.extend(n.orelse)      # break/continue in a nested loop's body belong to that loop
